@@ -140,3 +140,14 @@ Definition dop_wf (o : dop) : Prop :=
 (** several Sets in a row (config save = three, one after the other) *)
 Definition multi_ops (sets : list (bytes * bytes)) : list fsop :=
   flat_map (fun kv => set_ops true (sanitize (fst kv)) (snd kv)) sets.
+
+(** ---- every kind of write, and file names at the file system's limit ----
+    A name whose temp name is longer than NAME_MAX cannot be created: open fails (ENAMETOOLONG), the
+    Set returns the error and nothing was written.  Delete is one unlink. *)
+Definition name_max : nat := 255.
+Definition fits (n : fname) : bool := (length (tmp_of n) <=? name_max)%nat.
+Definition set_ops_os (n : fname) (v : bytes) : list fsop := if fits n then set_ops true n v else [].
+Inductive wop := WSet (k v : bytes) | WDelete (k : bytes).
+Definition wop_ops (o : wop) : list fsop :=
+  match o with WSet k v => set_ops_os (sanitize k) v | WDelete k => [Remove (sanitize k)] end.
+Definition writes_ops (ws : list wop) : list fsop := flat_map wop_ops ws.
